@@ -224,3 +224,30 @@ func (f *fdState) values(t *smt.Term) (vals []uint64, wits []map[string]uint64, 
 	}
 	return vals, wits, true
 }
+
+// smallDomain reports whether every variable of t was declared with a finite
+// domain and the joint domain has at most limit assignments.  It depends only
+// on declarations (never on the path condition), so it is replay-stable.
+func (p *pathCtx) smallDomain(t *smt.Term, limit int) bool {
+	m := map[string]uint8{}
+	smt.Vars(t, m, map[*smt.Term]bool{})
+	size := 1
+	for n := range m {
+		d := p.fd.dom[n]
+		if p.fdFrom != nil {
+			if d2, ok := p.fdFrom.dom[n]; ok && d == nil {
+				d = d2
+			}
+		}
+		if d == nil {
+			return false
+		}
+		if size <= limit {
+			size *= len(d)
+		}
+		if size > limit {
+			return false
+		}
+	}
+	return true
+}
